@@ -50,19 +50,13 @@ theorem comparators_only_expected :
     ∀ e ∈ Gen.levelComparators, e.2.2 = (expectedOrientation e.2.1).comparator := by decide
 
 theorem infinity_table :
-    ∀ d ∈ Gen.dialectTable, d.dialect ≠ .sqlite → (d.infinity.all InfinityProbe.ok) = true := by decide
+    ∀ d ∈ Gen.dialectTable, (d.infinity.all InfinityProbe.ok) = true := by decide
 
-theorem infinity_ok (d : DialectEntry) (h : d ∈ Gen.dialectTable) (hs : d.dialect ≠ .sqlite)
+theorem infinity_ok (d : DialectEntry) (h : d ∈ Gen.dialectTable)
     (p : InfinityProbe) (hp : d.infinity = some p) : p.ok = true := by
-  have := infinity_table d h hs
+  have := infinity_table d h
   rw [hp] at this
   simpa using this
-
-theorem sqlite_not_infinite :
-    ∃ d ∈ Gen.dialectTable, d.dialect = .sqlite ∧
-      ∃ p, d.infinity = some p ∧ p.bfLiteralIsPosInf = false ∧ p.exprDetectsBfLiteral = false := by
-  refine ⟨Gen.sqliteEntry, by simp [Gen.dialectTable], rfl, ?_⟩
-  decide
 
 theorem first_index_table :
     ∀ d ∈ Gen.dialectTable, d.executed = true → d.arrayFirstIndex.isSome = true →
